@@ -402,6 +402,7 @@ def correspond(ctx):
     hash_stream(ctx, s_hash, programs)
     renumbering(ctx, rng, cases)
     mirror_states(ctx, rng)
+    mutator_histories(ctx, rng, raws, programs)
     disagreements = []
     for s, primary in ((s_comp, True), (s_rxn, True), (s_fmt, True), (s_read, True), (s_tok, True), (s_exact, False), (s_hash, False)):
         bad = s.run()
@@ -890,6 +891,138 @@ def oracle_history(roles, rng, first=(), length=5):
     return None
 
 
+
+# ------------------------------------------------------------------------------------------------
+# mutator histories: after every public reaction-level operation the reaction describes the roles it holds
+# ------------------------------------------------------------------------------------------------
+
+# (name, kwargs, class)   class 'same-graph': the condensed graph on heavy atoms must not change
+MUTATORS = (
+    ('explicify_hydrogens', {}, 'same-graph'), ('implicify_hydrogens', {}, 'same-graph'),
+    ('contract_ions', {}, 'same-graph'), ('remove_reagents', {'keep_reagents': True}, 'any'),   # spectator copies may collide
+    ('remove_reagents', {'keep_reagents': True, 'mapping': False}, 'any'),       # rule based: predefined reagents, mapping agnostic
+    ('remove_reagents', {'keep_reagents': False}, 'centre'), ('remove_reagents', {'keep_reagents': False, 'mapping': False}, 'any'),
+    ('clean2d', {}, 'same-graph'), ('fix_positions', {}, 'same-graph'), ('clean_stereo', {}, 'same-graph'),
+    ('clean_isotopes', {}, 'any'), ('kekule', {}, 'any'), ('thiele', {}, 'any'), ('standardize', {'fix_mapping': False}, 'any'),
+    ('canonicalize', {'fix_mapping': False}, 'any'), ('flush_cache', {'keep_molecule_cache': True}, 'same-graph'),
+    ('flush_cache', {}, 'same-graph'), ('check_valence', {}, 'same-graph'), ('depict', {}, 'same-graph'),
+)
+CHECK_OBS = ('format', 'str', 'hash', 'compose', 'roundtrip', 'format!c', 'eq')
+
+
+def reassemble(rx):
+    """a new reaction object from copies of the molecules the object holds now (no caches shared)"""
+    from chython import ReactionContainer
+    return ReactionContainer([m.copy() for m in rx.reactants], [m.copy() for m in rx.products], [m.copy() for m in rx.reagents])
+
+
+def heavy_graph(rx):
+    """the condensed graph restricted to non-hydrogen atoms + per heavy atom the number of dynamic bonds to hydrogens;
+    None when compose raises ValueError"""
+    try:
+        h = rx.compose()
+    except ValueError:
+        return None
+    heavy = {n for n, a in h._atoms.items() if a.atomic_number != 1}
+    atoms = sorted((n, a.atomic_number, a.isotope or 0, a.charge, a.p_charge, a.is_radical, a.p_is_radical) for n, a in h._atoms.items()
+                   if n in heavy)
+    bonds = sorted((n, m, _o(b.order), _o(b.p_order)) for n, mb in h._bonds.items() for m, b in mb.items()
+                   if n < m and n in heavy and m in heavy)
+    dynh = {n: sum(1 for m, b in h._bonds[n].items() if m not in heavy and b.is_dynamic) for n in heavy}
+    return atoms, bonds, sorted(n for n in h.center_atoms if n in heavy), dynh, h
+
+
+def side_numbers_ok(rx):
+    """molecules of one side carry different numbers; reagents share no number with reactants or products"""
+    left = [n for m in rx.reagents + rx.reactants for n in m]
+    right = [n for m in rx.products for n in m]
+    if len(left) != len(set(left)) or len(right) != len(set(right)):
+        return False
+    ag = {n for m in rx.reagents for n in m}
+    return not (ag & set(right))
+
+
+def h_counts(rx):
+    """hydrogens (implicit + explicit neighbours) per heavy atom number and side"""
+    out = ({}, {})
+    for side, mols in ((0, rx.reactants), (1, rx.products)):
+        for m in mols:
+            for n, a in m.atoms():
+                if a.atomic_number != 1:
+                    out[side][n] = (a.implicit_hydrogens or 0) + sum(1 for k in m._bonds[n] if m._atoms[k].atomic_number == 1)
+    return out
+
+
+def oracle_mutators(roles, rng, first=None, length=3, script=None):
+    """observers, then public reaction-level operations; after each operation every observation must equal the observation of
+    a reaction re-assembled from the molecules the object holds (no stale str / hash / CGR), and operations that do not
+    change the chemistry must leave the condensed graph on the heavy atoms as it was (reagents stay out of the centre,
+    numbers stay unique, hydrogens made explicit become dynamic exactly where the hydrogen count differs)."""
+    if not any(roles):
+        return None
+    if script is None:
+        script = [['obs', rng.choice(('str', 'compose', 'hash', 'format', 'molstr', 'eq', 'centre'))]
+                  for _ in range(rng.choice((0, 1, 2, 3)))]
+        script += [['mut', first]] if first is not None else []
+        script += [['mut', rng.randrange(len(MUTATORS))] for _ in range(length)]
+    rx = fresh_rxn(roles)
+    done = []
+    for kind_, op in script:
+        if kind_ != 'obs':
+            continue
+        done.append([op, 0])
+        try:
+            observe(rx, op, 0)
+        except Exception as e:
+            return 'C15/history/raises/' + type(e).__name__, f'after {done}: {type(e).__name__}: {e}', script
+    muts = [MUTATORS[i] for k_, i in script if k_ == 'mut']
+    for name, kw, cls in muts:
+        before = heavy_graph(reassemble(rx)) if cls in ('same-graph', 'centre') else None
+        hc = h_counts(rx)
+        numbers_before = side_numbers_ok(rx)
+        done.append([name, kw])
+        try:
+            getattr(rx, name)(**kw)
+        except Exception:
+            # an operation that raised half-way (invalid structures of the generator) leaves no defined state: stop here
+            return None
+        ref = reassemble(rx)
+        for op in CHECK_OBS:
+            try:
+                got, want = observe(rx, op), observe(ref, op)
+            except Exception as e:
+                return 'C15/history/raises/' + type(e).__name__, f'after {done} observation {op}: {type(e).__name__}: {e}', script
+            if got != want:
+                return ('C15/history/stale/' + op.rstrip('!c'), f'after {done} the observation {op} gives {str(got)[:260]!r} but the '
+                        f'roles the object holds, assembled anew, give {str(want)[:260]!r}', script)
+        # the graph clauses presuppose a reaction whose molecules carry different numbers inside a side, reagents apart
+        if before is not None and numbers_before:
+            after = heavy_graph(ref)
+            if after is None:
+                if cls == 'centre':
+                    continue
+                return 'C15/mutator/compose-raises', f'after {done} the sides cannot be composed any more (ValueError)', script
+            if numbers_before and name in ('explicify_hydrogens', 'implicify_hydrogens') and not side_numbers_ok(rx):
+                return 'C15/mutator/numbers', f'after {done} atom numbers are shared between molecules of a side / reagents and products', script
+            if cls == 'same-graph':
+                if (before[0], before[1]) != (after[0], after[1]):
+                    da = [x for x in after[0] if x not in before[0]][:3] + [x for x in after[1] if x not in before[1]][:3]
+                    return 'C15/mutator/graph', f'{name} changed the condensed graph on heavy atoms, e.g. {da}', script
+                expected = set(before[2]) | ({n for n in hc[0] if n in hc[1] and hc[0][n] != hc[1][n]} if name == 'explicify_hydrogens' else set())
+                if name == 'explicify_hydrogens':
+                    if set(after[2]) != expected:
+                        return ('C15/mutator/centre', f'after {done} heavy centre {after[2]} != centre before {before[2]} + atoms whose '
+                                f'hydrogen count differs {sorted(expected - set(before[2]))}', script)
+                elif name != 'implicify_hydrogens' and set(after[2]) != set(before[2]):
+                    return 'C15/mutator/centre', f'after {done} heavy centre {after[2]} != {before[2]}', script
+            else:
+                if set(after[2]) != set(before[2]):
+                    return 'C15/mutator/centre', f'after {done} heavy centre {after[2]} != {before[2]}', script
+            ag = {n for m in rx.reagents for n in m}
+            if numbers_before and name in ('explicify_hydrogens', 'implicify_hydrogens') and ag & set(after[4].center_atoms):
+                return 'C15/mutator/reagent-in-centre', f'after {done} reagent atoms {sorted(ag & set(after[4].center_atoms))} are in the centre', script
+    return None
+
 # ------------------------------------------------------------------------------------------------
 # mirror states: invariants behind the canonical numbering must tell all dynamic states apart
 # ------------------------------------------------------------------------------------------------
@@ -929,6 +1062,36 @@ def oracle_mirror(kind, s1, s2, z_end=6):
     if sorted(a.split('.')) != sorted(b.split('.')):
         return 'C15/cgr-string/renumbering', f'{kind} states {s1} and {s2} in mirror positions: {a!r} vs {b!r} after swapping numbers 1 and 3'
     return None
+
+
+def mutator_roles(rng, small, i):
+    """role lists for operation histories: untouched molecules with salts / radical ties, or an edited reaction with reagents
+    that carry hydrogens (numbers apart)"""
+    if i % 2:
+        return random_roles(rng, small)
+    g = gen_reaction(rng, small)
+    rs, ps = split_roles(rng, g['R']), split_roles(rng, g['P'])
+    nxt, ags = g['next'] + 1, []
+    for _ in range(rng.choice((0, 1, 1, 2))):
+        m = rng.choice(small)
+        ags.append(m.renamed({k: nxt + j for j, k in enumerate(m.atoms)}))
+        nxt += len(m.atoms)
+    return [rs, ags, ps]
+
+
+def mutator_histories(ctx, rng, raws, programs):
+    small = [x for x in raws if len(x.atoms) <= 14]
+    n = 285 if ctx.quick else 3800
+    for i in range(n):
+        roles = mutator_roles(rng, small, i)
+        first = (i // 2) % len(MUTATORS)          # every operation opens the same number of histories of both kinds
+        res = oracle_mutators(roles, rng, first=first)
+        ctx.count(('relational', 'mutators', i))
+        ctx.dist('mutators:first=' + MUTATORS[first][0])
+        if res:
+            ctx.fail(res[0], res[1], {'kind': 'mutators', 'roles': [[raw_json(x) for x in role] for role in roles], 'script': res[2]})
+            return
+    programs.update('ReactionContainer.' + m[0] for m in MUTATORS)
 
 
 def minus_one_class(kind, a, b):
@@ -1206,6 +1369,11 @@ def search(ctx):
             if res:
                 ctx.fail(res[0], res[1], {'kind': 'history', 'roles': [[raw_json(x) for x in role] for role in roles], 'ops': res[2]})
                 return
+        roles = mutator_roles(rng, small, n)
+        res = oracle_mutators(roles, rng, first=n % len(MUTATORS))
+        if res:
+            ctx.fail(res[0], res[1], {'kind': 'mutators', 'roles': [[raw_json(x) for x in role] for role in roles], 'script': res[2]})
+            return
         text, flavour = gen_read_text(rng)
         if flavour == 'writer':
             res = oracle_read_text(text)
@@ -1307,6 +1475,10 @@ def probe(inp):
     if kind == 'token-pair':
         res = oracle_tokens()
         return (True, f'{res[0]}: {res[1]}') if res else (False, 'all bond/atom states have distinct CGR signatures with > exactly on change')
+    if kind == 'mutators':
+        roles = [[raw_from_json(x) for x in role] for role in inp['roles']]
+        res = oracle_mutators(roles, None, script=inp['script'])
+        return (True, f'{res[0]}: {res[1]}') if res else (False, 'after every operation the reaction describes the roles it holds')
     if kind == 'history':
         import random
         roles = [[raw_from_json(x) for x in role] for role in inp['roles']]
